@@ -59,6 +59,7 @@ func c18ApplayerMethods(P *load.Program, name string) []*ssa.Function {
 func c18EncoderTotal(c *Ctx) {
 	r := c.Run
 	P := c.Prog
+	r.Rule("R4.encodertotal.roots", "every applayer MarshalBinary is found and its guard analysis converges")
 	r.Rule("R4.encodertotal", "every index/slice/make/intrinsic-precondition and pointer dereference reachable from an applayer MarshalBinary is discharged by a dominating guard")
 	roots := c18ApplayerMethods(P, "MarshalBinary")
 	if len(roots) < 30 {
@@ -134,12 +135,12 @@ func c18RegisteredPayloadTypes(P *load.Program, rel string) map[*types.Named]boo
 func c18StreamConvention(c *Ctx) {
 	r := c.Run
 	P := c.Prog
-	r.Rule("R3.stream", "a registered payload decoder tests len(data) as a lower bound (<, <=): an equality / inequality test rejects the payload whenever another command follows it in the same buffer")
+	r.Rule("R3.stream-test", "a registered payload decoder tests len(data) as a lower bound (<, <=): an equality / inequality test rejects the payload whenever another command follows it in the same buffer")
 	total := 0
 	for _, rel := range c18ApplayerPkgs {
 		regs := c18RegisteredPayloadTypes(P, rel)
 		if len(regs) == 0 {
-			r.Unknown("R3.stream", rel, "", "the package registers payload constructors in a map literal", "none found")
+			r.Unknown("R3.stream-test", rel, "", "the package registers payload constructors in a map literal", "none found")
 			continue
 		}
 		var names []*types.Named
@@ -151,19 +152,19 @@ func c18StreamConvention(c *Ctx) {
 			fn := P.SSAFunc(rel, n.Obj().Name()+".UnmarshalBinary")
 			key := rel + "." + n.Obj().Name() + ".UnmarshalBinary"
 			if fn == nil {
-				r.Unknown("R3.stream", key, "", "registered payload has a decoder", "UnmarshalBinary not found")
+				r.Unknown("R3.stream-test", key, "", "registered payload has a decoder", "UnmarshalBinary not found")
 				continue
 			}
 			total++
 			r.Saw("registered payload decoders", key)
 			data := c18DataParam(fn)
 			if data == nil {
-				r.Unknown("R3.stream", key, P.Rel(fn.Pos()), "decoder has a []byte parameter", "none")
+				r.Unknown("R3.stream-test", key, P.Rel(fn.Pos()), "decoder has a []byte parameter", "none")
 				continue
 			}
 			tests := c18LengthTests(fn, data)
 			if len(tests) == 0 {
-				r.OK("R3.stream", key, P.Rel(fn.Pos()), "rejecting length tests are lower bounds", "no length test rejects input", false)
+				r.OK("R3.stream-test", key, P.Rel(fn.Pos()), "rejecting length tests are lower bounds", "no length test rejects input", false)
 				continue
 			}
 			for _, t := range tests {
@@ -179,9 +180,9 @@ func c18StreamConvention(c *Ctx) {
 					}
 				}
 				if okc {
-					r.OK("R3.stream", k, P.Rel(t.cmp.Pos()), "rejecting length tests are lower bounds", desc, true)
+					r.OK("R3.stream-test", k, P.Rel(t.cmp.Pos()), "rejecting length tests are lower bounds", desc, true)
 				} else {
-					r.Bad("R3.stream", k, P.Rel(t.cmp.Pos()), "rejecting length tests are lower bounds", desc+": Commands.UnmarshalBinary passes the whole remaining buffer, so a command that follows this one makes it undecodable")
+					r.Bad("R3.stream-test", k, P.Rel(t.cmp.Pos()), "rejecting length tests are lower bounds", desc+": Commands.UnmarshalBinary passes the whole remaining buffer, so a command that follows this one makes it undecodable")
 				}
 			}
 		}
